@@ -116,11 +116,11 @@ func (c *evalCtx) parseType(s string) types.Type {
 	if gt, ok := c.r.v.ghostTypeOf(s); ok {
 		return gt
 	}
-	tv, err := types.Eval(c.r.v.prog.Fset, c.r.v.pkg.Pkg, token.NoPos, s)
-	if err != nil {
-		c.fail("bad type %q: %v", s, err)
+	t, ok := c.r.v.lookupType(s)
+	if !ok {
+		c.fail("bad type %q", s)
 	}
-	return tv.Type
+	return t
 }
 
 func (c *evalCtx) noSkolem() *evalCtx {
@@ -228,14 +228,17 @@ func (c *evalCtx) ident(name string) tval {
 	case "nil":
 		return tval{IntLit(0), types.Typ[types.UntypedNil]}
 	}
+	if v, ok := c.vars["&"+name]; ok {
+		// a local variable that lives in a memory cell (address taken / captured / named result with
+		// defer): its current value is what the cell holds now, not a register loaded earlier
+		if _, isParam := c.r.params[name]; !isParam {
+			if pt, isP := v.T.Underlying().(*types.Pointer); isP {
+				return tval{c.r.v.readLoc(c.st, c.cur, c.r.v.derefLoc(v.V, pt.Elem())), pt.Elem()}
+			}
+		}
+	}
 	if v, ok := c.vars[name]; ok {
 		return v
-	}
-	if v, ok := c.vars["&"+name]; ok {
-		// a local variable that lives in a memory cell (address taken / captured / named result with defer)
-		if pt, isP := v.T.Underlying().(*types.Pointer); isP {
-			return tval{c.r.v.readLoc(c.st, c.cur, c.r.v.derefLoc(v.V, pt.Elem())), pt.Elem()}
-		}
 	}
 	if gv, ok := c.r.v.spec.GhostVars[name]; ok {
 		t := c.parseType(gv.Type)
@@ -578,7 +581,7 @@ func (c *evalCtx) call(x *ast.CallExpr) tval {
 			if mt, ok := a.T.Underlying().(*types.Map); ok {
 				mi := c.r.v.mapInfo(mt)
 				card := c.st.compAt(c.cur, "MapCard["+strings.TrimPrefix(mi.dom, "MapDom["), "(Array Int Int)")
-				return tval{mk(SInt, "(select %s %s)", card, t.S), tInt}
+				return tval{mk(SInt, "(ite (= %s 0) 0 (select %s %s))", t.S, card, t.S), tInt}
 			}
 		}
 		c.fail("len of %s", a.T)
@@ -730,11 +733,14 @@ func (c *evalCtx) call(x *ast.CallExpr) tval {
 	case "errIs":
 		return tval{mk(SBool, "(errIs %s %s)", c.term(arg(0)).S, c.term(arg(1)).S), tBool}
 	case "visited":
-		it, ok := c.vars["$iter"]
+		k := c.term(arg(0))
+		it, ok := c.vars["$iter:"+string(k.Sort)]
+		if !ok {
+			it, ok = c.vars["$iter"]
+		}
 		if !ok {
 			c.fail("visited() outside a map range loop")
 		}
-		k := c.term(arg(0))
 		name, sig := c.r.iterComp(k.Sort)
 		vis := c.st.compAt(c.cur, name, sig)
 		return tval{mk(SBool, "(select (select %s %s) %s)", vis, it.V.(Term).S, k.S), tBool}
